@@ -190,6 +190,12 @@ pub fn run(cfg: &Cfg) {
             "ppraw bytes - 30000*B=~8*00;M=61".to_string(),
             "ppraw string - 2000*B=~8*00;B=0000000000000001+0000000000000001+62;5000*B=~8*00;M=61".to_string(),
         ] { cases.push(c); }
+        // frames with an empty body reaching a subscriber that decompresses (some decompressors make an empty value of
+        // nothing, others report an error: either way the subscriber yields something and goes on)
+        for algo in ["gzip:-", "zlib:-", "zstd:-", "lz4:-", "brg:-"] {
+            cases.push(format!("ppraw bytes {algo} M=-;M=-;B=-;M=-"));
+            cases.push(format!("ppraw string {algo} B=-;M=-"));
+        }
         let mut r = Rng::new(cfg.seed, "e2esub");
         let algos = ["-", "-", "gzip:-", "zlib:-", "zstd:-", "lz4:-", "brg:-"];
         for i in 0..cfg.n(36, 600) {
